@@ -42,6 +42,7 @@ hxid == <<120, 45, 105, 100>>                                          \* "x-id"
 hLocation == <<76, 111, 99, 97, 116, 105, 111, 110>>                   \* "Location"
 rxUsers == <<117, 47, 40, 46, 43, 41>>                                 \* "u/(.+)"
 rxAll == <<40, 46, 43, 41>>                                            \* "(.+)"
+rxPath == <<47, 117, 115, 101, 114, 115, 47, 40, 46, 43, 41>>                  \* "/users/(.+)"
 tAb == <<97, 98>>                                                      \* "ab"
 bogus == <<36, 98, 111, 103, 117, 115>>                                \* "$bogus"
 cHash == 35  cDollar == 36  cSlash == 47  cTilde == 126  cLB == 123  cRB == 125
@@ -99,7 +100,7 @@ RU == [k |-> "U", v |-> NoBody]                   \* the standard is silent or a
 LitOrRej(s) == [k |-> "litorrej", v |-> Str(s)]   \* braces but no "$" at all: a constant with literal braces, or refused - nothing else
 
 (* ------------------- bare expressions (the ABNF) ------------------------ *)
-Catalogue == {rxUsers, rxAll}                     \* regex extractors "<literal>(.+)"
+Catalogue == {rxUsers, rxAll, rxPath}                     \* regex extractors "<literal>(.+)"
 Node(k) == [k |-> k, loc |-> "", name |-> <<>>, hasRx |-> FALSE, rx |-> <<>>, ptr |-> <<>>]
 RefNode(k, loc, rest, isHeader) ==
     LET h == Find(rest, cHash)
